@@ -1113,8 +1113,9 @@ func (db *DB) WriteDatabaseAt(ctx context.Context, f *os.File, data []byte, offs
 		return nil
 	}
 
-	// Use page size from the write.
-	if db.pageSize == 0 {
+	// Use page size from the write. An empty (e.g. dropped) database may be
+	// recreated with a different page size so re-read it on the first page.
+	if db.pageSize == 0 || (db.PageN() == 0 && offset == 0) {
 		if offset != 0 {
 			return fmt.Errorf("cannot determine page size, initial offset (%d) is non-zero", offset)
 		}
@@ -1281,9 +1282,12 @@ func (db *DB) WriteJournalAt(ctx context.Context, f *os.File, data []byte, offse
 		return ErrReadOnlyReplica
 	}
 
-	// Set the page size on initial journal header write.
-	if offset == 0 && len(data) >= SQLITE_JOURNAL_HEADER_SIZE && db.pageSize == 0 {
-		db.pageSize = binary.BigEndian.Uint32(data[24:])
+	// Set the page size on initial journal header write. An empty (e.g. dropped)
+	// database may be recreated with a different page size.
+	if offset == 0 && len(data) >= SQLITE_JOURNAL_HEADER_SIZE && (db.pageSize == 0 || db.PageN() == 0) {
+		if pageSize := binary.BigEndian.Uint32(data[24:]); pageSize != 0 || db.pageSize == 0 {
+			db.pageSize = pageSize
+		}
 	}
 
 	dbJournalWriteCountMetricVec.WithLabelValues(db.name).Inc()
@@ -2515,7 +2519,7 @@ func (db *DB) ApplyLTXNoLock(path string, fatalOnError bool) (retErr error) {
 		return fmt.Errorf("decode ltx header: %s", err)
 	}
 	hdr = dec.Header()
-	if db.pageSize == 0 {
+	if db.pageSize == 0 || db.PageN() == 0 {
 		db.pageSize = dec.Header().PageSize
 	}
 
